@@ -209,6 +209,14 @@ def run_ops(image, ops, pristine=None):
     bases = {}
     for n, op in enumerate(ops):
         c = op['c']
+        if op['op'] == 'share':
+            # client c from now on uses the very stream object of another client
+            if op['of'] in streams:
+                streams[c] = streams[op['of']]
+                img[c] = img[op['of']]
+                bases[c] = bases.get(op['of'], 0)
+                stats['stream-shared'] = stats.get('stream-shared', 0) + 1
+            continue
         if op['op'] == 'open':
             data = image[:op['eof']] if op.get('eof') is not None else image
             img[c] = (data, op['kind'])
@@ -237,7 +245,12 @@ def run_ops(image, ops, pristine=None):
             if c in streams:
                 st = streams[c][0]
                 want = bases.get(c, 0) + op['off']
-                if op.get('via') == 'attr' or want > 0xFFFFFFFF:     # setoffset() is documented to wrap at 4 GiB
+                if want < 0:
+                    # a resync target before the start of the buffer (e.g. a backward branch computed from a signed
+                    # displacement): setoffset() wraps it to a huge position, from which nothing can be decoded
+                    st.setoffset(want)
+                    want &= 0xFFFFFFFF
+                elif op.get('via') == 'attr' or want > 0xFFFFFFFF:   # setoffset() is documented to wrap at 4 GiB
                     st.offset = want
                 else:
                     st.setoffset(want)
@@ -390,8 +403,13 @@ def gen_run(rng):
                 op['eio_at'] = rng.randrange(1, 8)
             ops.append(op)
         elif k < 0.9:
-            ops.append({'op': 'seek', 'c': c, 'off': rng.choice(bounds) if rng.random() < 0.6 else rng.randrange(lo, len(image) + 1),
-                        'via': rng.choice(['set', 'attr'])})
+            if rng.random() < 0.08:
+                ops.append({'op': 'seek', 'c': c, 'off': -rng.randrange(1, 40), 'via': 'set'})
+            else:
+                ops.append({'op': 'seek', 'c': c, 'off': rng.choice(bounds) if rng.random() < 0.6 else rng.randrange(lo, len(image) + 1),
+                            'via': rng.choice(['set', 'attr'])})
+        elif k < 0.93 and nclients > 1:
+            ops.append({'op': 'share', 'c': c, 'of': rng.choice([x for x in range(nclients) if x != c])})
         else:
             op = {'op': 'open', 'c': c, 'kind': rng.choice(BACKENDS), 'off': rng.choice(bounds + [0, 0])}
             if rng.random() < 0.5:
